@@ -165,6 +165,12 @@ func (ex *Exec) run() {
 		// are part of the postcondition)
 		o := ex.oblige("vacuity", "return", fn.Pos(), nil, ret, ts.True())
 		o.MustBeSat = true
+		// every call-site clause must have found its call (contract-stale guard)
+		for _, s := range fc.Sites {
+			if !ex.sitesHit[fmt.Sprintf("spec:%s#%d", s.Callee, s.Occ)] {
+				ex.contractProblem("%s: no call site matches 'at call %s#%d' (or it is unreachable)", fc.Pos, s.Callee, s.Occ)
+			}
+		}
 	}
 }
 
@@ -265,6 +271,28 @@ func (ex *Exec) indexSites() {
 		cnt[r.short]++
 		ex.siteIndex[r.ins] = siteInfo{short: r.short, occ: cnt[r.short]}
 	}
+	// qualified patterns ("OpenedFile).Lock"): occurrences are counted among
+	// the calls whose full callee name ends with the pattern
+	ex.siteQualified = map[ssa.Instruction]map[string]int{}
+	if ex.contract != nil {
+		for _, s := range ex.contract.Sites {
+			if !strings.ContainsAny(s.Callee, ".)") {
+				continue
+			}
+			k := 0
+			for _, r := range recs {
+				ci := r.ins.(ssa.CallInstruction)
+				full := calleeName(ci.Common())
+				if strings.HasSuffix(full, s.Callee) {
+					k++
+					if ex.siteQualified[r.ins] == nil {
+						ex.siteQualified[r.ins] = map[string]int{}
+					}
+					ex.siteQualified[r.ins][s.Callee] = k
+				}
+			}
+		}
+	}
 }
 
 func (ex *Exec) matchingSites(fr *Frame, instr ssa.Instruction) []*SiteSpec {
@@ -278,6 +306,10 @@ func (ex *Exec) matchingSites(fr *Frame, instr ssa.Instruction) []*SiteSpec {
 	var out []*SiteSpec
 	for _, s := range ex.contract.Sites {
 		if s.Callee == si.short && (s.Occ == 0 || s.Occ == si.occ) {
+			out = append(out, s)
+			continue
+		}
+		if k, ok := ex.siteQualified[instr][s.Callee]; ok && (s.Occ == 0 || s.Occ == k) {
 			out = append(out, s)
 		}
 	}
@@ -337,6 +369,9 @@ func (ex *Exec) siteHooks(fr *Frame, st *State, instr ssa.Instruction, name stri
 		}
 	}
 	ex.sitesHit[fmt.Sprintf("%s#%d", si.short, si.occ)] = true
+	for _, s := range sites {
+		ex.sitesHit[fmt.Sprintf("spec:%s#%d", s.Callee, s.Occ)] = true
+	}
 }
 
 func (ex *Exec) siteHooksAfter(fr *Frame, st *State, instr ssa.Instruction, name string, args []Value, res Value) {
